@@ -237,7 +237,11 @@ func (p *ProofD) validate(pk *gabikeys.PublicKey) error {
 			return errors.New("attribute is both disclosed and hidden in ProofD")
 		}
 	}
-	for _, proofs := range p.RangeProofs {
+	for i, proofs := range p.RangeProofs {
+		// Range proofs are verified against the response of the hidden attribute they are about
+		if p.AResponses[i] == nil {
+			return errors.New("range proof on attribute that is not hidden in ProofD")
+		}
 		for _, proof := range proofs {
 			if proof == nil {
 				return errors.New("missing range proof in ProofD")
